@@ -3,7 +3,10 @@
 git -C /repo apply <patch>; ./check <property>; git -C /repo checkout -- .
 and records the outcome in seeded/<id>/meta.json (target_on_repo).
 
-  tools/seedverify.py [seed-id ...]
+  tools/seedverify.py [--alt] [seed-id ...]
+
+--alt: run against a scratch copy of the committed /repo tree with the patch
+applied (VERIF_REPO) instead of /repo itself; recorded as target_alt_seed<N>.
 
 Nothing else may use /repo while this runs. /repo must be clean. VERIF_SEED
 (default 1) is passed on to the checks; a value other than 1 is recorded under
@@ -19,8 +22,11 @@ def sh(cmd, **kw):
 
 
 def main():
+    alt = "--alt" in sys.argv
+    if alt:
+        sys.argv.remove("--alt")
     seeds = sys.argv[1:] or sorted(os.path.basename(p) for p in glob.glob(os.path.join(V, "seeded", "*")) if os.path.exists(os.path.join(p, "patch.diff")))
-    if sh(["git", "-C", "/repo", "status", "--porcelain"]).stdout.strip():
+    if not alt and sh(["git", "-C", "/repo", "status", "--porcelain"]).stdout.strip():
         print("/repo is not clean; refusing")
         return 2
     head = sh(["git", "-C", "/repo", "rev-parse", "--short", "HEAD"]).stdout.strip()
@@ -30,20 +36,34 @@ def main():
         d = os.path.join(V, "seeded", s)
         m = json.load(open(os.path.join(d, "meta.json")))
         prop = m["breaks_property"]
-        r = sh(["git", "-C", "/repo", "apply", os.path.join(d, "patch.diff")])
+        env = os.environ.copy()
+        if alt:
+            # a scratch copy of the COMMITTED tree (VERIF_REPO): /repo itself is not touched
+            scratch = "/tmp/seedverify-alt-%d" % os.getpid()
+            subprocess.run(["rm", "-rf", scratch])
+            os.makedirs(scratch)
+            subprocess.run("git -C /repo archive HEAD | tar -x -C " + scratch, shell=True, check=True)
+            r = sh(["git", "apply", os.path.join(d, "patch.diff")], cwd=scratch)
+            env["VERIF_REPO"] = scratch
+        else:
+            r = sh(["git", "-C", "/repo", "apply", os.path.join(d, "patch.diff")])
         if r.returncode != 0:
             print(s, "PATCH DOES NOT APPLY", r.stdout.strip()[:200])
             bad += 1
             continue
         t0 = time.time()
         try:
-            r = sh([os.path.join(V, "check"), prop, "--tier", "quick"], cwd=V)
+            r = sh([os.path.join(V, "check"), prop, "--tier", "quick"], cwd=V, env=env)
         finally:
-            sh(["git", "-C", "/repo", "checkout", "--", "."])
-            sh(["git", "-C", "/repo", "clean", "-fdq"])
+            if alt:
+                subprocess.run(["rm", "-rf", scratch])
+                subprocess.run("rm -rf " + os.path.join(V, "work", "alt-*seedverify_alt_%d" % os.getpid()), shell=True)
+            else:
+                sh(["git", "-C", "/repo", "checkout", "--", "."])
+                sh(["git", "-C", "/repo", "clean", "-fdq"])
         line = next((l for l in r.stdout.splitlines() if "violated" in l), "")
         vs = os.environ.get("VERIF_SEED", "1")
-        m["target_on_repo" if vs == "1" else "target_on_repo_seed" + vs] = {"rc": r.returncode, "wall_s": round(time.time() - t0, 1), "repo_head": head, "verif_head": vhead, "first_message": line.strip()[:300]}
+        m[("target_alt_seed" + vs) if alt else ("target_on_repo" if vs == "1" else "target_on_repo_seed" + vs)] = {"rc": r.returncode, "wall_s": round(time.time() - t0, 1), "repo_head": head, "verif_head": vhead, "first_message": line.strip()[:300]}
         json.dump(m, open(os.path.join(d, "meta.json"), "w"), indent=1)
         print(s, prop, "rc=%d" % r.returncode, "CAUGHT" if r.returncode == 1 else "MISSED/INCONCLUSIVE", flush=True)
         if r.returncode != 1:
